@@ -29,3 +29,10 @@ impl Clone for Metablock { #[verifier::external_body] fn clone(&self) -> (r: Sel
 impl Clone for PublicKey { #[verifier::external_body] fn clone(&self) -> (r: Self) ensures r == *self { unimplemented!() } }
 // Debug impls exist in the repo (derived); formatting never panics (prelude/axioms.rs)
 impl std::fmt::Debug for Command { #[verifier::external_body] fn fmt(&self, f: &mut std::fmt::Formatter) -> std::fmt::Result { unimplemented!() } }
+// assumed: `==` / `!=` on artifact maps (BTreeMap<VirtualTargetPath, HashMap<HashAlgorithm, HashValue>>) is structural equality
+pub type ArtifactMap = BTreeMap<VirtualTargetPath, TargetDescription>;
+#[verifier::external_body]
+pub proof fn fact_artifact_map_eq()
+    ensures <ArtifactMap as vstd::std_specs::cmp::PartialEqSpec>::obeys_eq_spec(),
+            forall|a: ArtifactMap, b: ArtifactMap| #[trigger] vstd::std_specs::cmp::PartialEqSpec::eq_spec(&a, &b) == (a == b),
+{}
